@@ -42,6 +42,27 @@ BigAdd(a0, b0) ==
 BigAbsDiff(a, b) == IF BigLt(a, b) THEN BigSub(b, a) ELSE BigSub(a, b)
 IsZeroBig(a) == \A i \in 1..Len(a) : a[i] = 0
 
+\* a * d for one digit d
+BigMulDigit(a, d) ==
+    LET n == Len(a) + 1
+        x == PadL(a, n)
+        Car[i \in 0..n] == IF i = 0 THEN 0 ELSE (x[n + 1 - i] * d + Car[i - 1]) \div 10
+    IN  StripLZ([j \in 1..n |-> LET i == n + 1 - j IN (x[j] * d + Car[i - 1]) % 10])
+\* schoolbook product
+RECURSIVE BigMul(_, _)
+BigMul(a, b) == IF b = <<>> THEN <<0>>
+                ELSE BigAdd(Shl(BigMulDigit(a, b[1]), Len(b) - 1), BigMul(a, Tail(b)))
+\* long division: [q, r] with a = q * b + r, 0 <= r < b   (b # 0)
+RECURSIVE DivDigit(_, _, _)
+DivDigit(r, b, k) == IF BigLt(r, b) THEN [k |-> k, r |-> r] ELSE DivDigit(BigSub(r, b), b, k + 1)
+RECURSIVE BigDivModAcc(_, _, _, _)
+BigDivModAcc(a, b, q, r) ==
+    IF a = <<>> THEN [q |-> StripLZ(q), r |-> StripLZ(r)]
+    ELSE LET r1 == StripLZ(r \o <<a[1]>>)
+             d == DivDigit(r1, b, 0)
+         IN  BigDivModAcc(Tail(a), b, q \o <<d.k>>, d.r)
+BigDivMod(a, b) == BigDivModAcc(a, b, <<>>, <<0>>)
+
 \* ---- decimals [sg, ds, e]: sg * ds * 10^e ----
 Dec(sg, ds, e) == [sg |-> sg, ds |-> ds, e |-> e]
 RECURSIVE StripTZ(_, _)
@@ -57,6 +78,36 @@ AbsWithin(x, y, h) ==
     LET e0 == IF x.e < y.e THEN (IF x.e < h.e THEN x.e ELSE h.e) ELSE (IF y.e < h.e THEN y.e ELSE h.e)
     IN  BigLe(BigAbsDiff(Shl(x.ds, x.e - e0), Shl(y.ds, y.e - e0)), Shl(h.ds, h.e - e0))
 Scale10(x, k) == Dec(x.sg, x.ds, x.e + k)
+
+\* ---- exact arithmetic on decimals (used on the exact decimal expansions of doubles) ----
+DecIsZero(x) == IsZeroBig(x.ds)
+DecSign(x) == IF DecIsZero(x) THEN 0 ELSE x.sg
+DecNeg(x) == Dec(0 - x.sg, x.ds, x.e)
+\* order of magnitude first: digit sequences are aligned only when it is the same
+DMag(x) == LET d == StripLZ(x.ds) IN Len(d) + x.e
+DecAbsLt(x, y) == IF DecIsZero(x) THEN ~DecIsZero(y) ELSE IF DecIsZero(y) THEN FALSE
+                  ELSE IF DMag(x) # DMag(y) THEN DMag(x) < DMag(y)
+                  ELSE LET A == AlignedAbs(x, y) IN BigLt(A.a, A.b)
+DecAbsEq(x, y) == IF DecIsZero(x) \/ DecIsZero(y) THEN DecIsZero(x) /\ DecIsZero(y)
+                  ELSE DMag(x) = DMag(y) /\ LET A == AlignedAbs(x, y) IN BigEq(A.a, A.b)
+DecLt(x, y) == LET sx == DecSign(x)  sy == DecSign(y) IN
+               IF sx # sy THEN sx < sy
+               ELSE IF sx = 0 THEN FALSE
+               ELSE IF sx > 0 THEN DecAbsLt(x, y) ELSE DecAbsLt(y, x)
+DecSame(x, y) == DecSign(x) = DecSign(y) /\ (DecSign(x) = 0 \/ DecAbsEq(x, y))
+DecAdd(x, y) ==
+    LET A == AlignedAbs(x, y)  sx == DecSign(x)  sy == DecSign(y) IN
+    IF sx = 0 THEN y ELSE IF sy = 0 THEN x
+    ELSE IF sx = sy THEN Dec(sx, BigAdd(A.a, A.b), A.e)
+    ELSE IF BigLt(A.a, A.b) THEN Dec(sy, BigSub(A.b, A.a), A.e)
+    ELSE IF BigEq(A.a, A.b) THEN Dec(0, <<0>>, 0)
+    ELSE Dec(sx, BigSub(A.a, A.b), A.e)
+DecSub(x, y) == DecAdd(x, DecNeg(y))
+DecMul(x, y) == IF DecSign(x) = 0 \/ DecSign(y) = 0 THEN Dec(0, <<0>>, 0) ELSE Dec(x.sg * y.sg, BigMul(x.ds, y.ds), x.e + y.e)
+\* the truncated remainder with the dividend's sign: x - y * trunc(x / y)    (y # 0)
+DecRem(x, y) == LET A == AlignedAbs(x, y)
+                    r == BigDivMod(A.a, A.b).r
+                IN  IF IsZeroBig(r) THEN Dec(0, <<0>>, 0) ELSE Dec(x.sg, r, A.e)
 
 \* N2: half-to-even at the p-th fraction digit (p may be negative)
 RoundDec(x0, p) ==
